@@ -5,7 +5,8 @@
    the numerics are ARBITRARY functions (universally quantified below), so "equals what
    a fresh object returns" is equality of the same function applied to the same
    constructor / call arguments.  [legacy = false] is the repaired code
-   (fixes/C09-1..4), [legacy = true] the code as found (refuted below).
+   (fixes/C09-1..4; C09-2 makes data_profile the un-cached property
+   raw / normalization_value), [legacy = true] the code as found (refuted below).
    Histories are arbitrary finite lists ([brun], [pobserve], [arun], [psrun], [itrun],
    [erun], [grun], [sfrun] fold the step function over them). *)
 From Coq Require Import List ZArith Bool.
@@ -62,8 +63,9 @@ Theorem profile_order_independent :
 Proof. exact profile_order_independent_lemma. Qed.
 Print Assumptions profile_order_independent.
 
-(* ... and equals the answer of the cache-free reference object [vstep]/[vrun] (no lazy
-   attributes at all; all arrays rescaled by every normalize/unnormalize) *)
+(* ... and equals the answer of the cache-free reference object [vstep]/[vrun] of
+   C09_Model (no lazy attributes at all: profile and profile_error rescaled by every
+   normalize/unnormalize, data_profile = raw / normalization_value) *)
 Theorem profile_obs_is_reference :
   forall (T : Type) (mul div : T -> T -> T) (norm_of : bool -> list T -> T) (is_zero : T -> bool) (one : T)
          (c : pcfg T) (h : list pop) (o : pop),
